@@ -284,7 +284,12 @@ class World:
         ty = tu["type"]
         if k == "ntw":
             try:
-                self.publisher(i, t).set(DOM[ty][ev["vi"]])
+                pub = self.publisher(i, t)
+                # a dashboard may seed a value that does not exist yet with set-default (value timestamp 0) instead of set
+                if (i + t + ev["vi"]) % 3 == 0 and not self.inst.getEntry(self.path(i, t)).getValue().isValid():
+                    pub.setDefault(DOM[ty][ev["vi"]])
+                else:
+                    pub.set(DOM[ty][ev["vi"]])
                 return {"err": False}
             except Exception as e:  # noqa
                 return {"err": True, "msg": "%s: %s" % (type(e).__name__, e)}
